@@ -3,9 +3,9 @@
             the result checker (Spec/TwiseOk.v);
             the PLAIN sampler Ddnnf::sample_t_wise (ZippingMerger + SimilarityMerger, Model/TwiseCfg.v,
             TwiseMerge.v, TwisePipeline.v): C09_sample_t_wise_covers - for every order oracle and every
-            trim choice the model returns a sample accepted by the result checker - for circuits in
-            which no node lists a child twice; with a repeated child the sampler panics
-            (C09_sample_t_wise_repeated_child_refuted, confirmed on the code: finding K36).
+            trim choice the model returns a sample accepted by the result checker.  Before the repair
+            F13 the sampler panicked on a node that lists a child twice (finding K36):
+            C09_sample_t_wise_repeated_child_refuted is about that pipeline (sample_t_wise_v0).
             the FITNESS-GUIDED sampler ExtendedDdnnf::sample_t_wise (Model/TwiseFitness.v) for t <= n:
             C09_sample_t_wise_fitness_covers; refuted for t > n (finding K11):
             C09_sample_t_wise_fitness_refuted_t_exceeds_n.
@@ -209,14 +209,14 @@ Print Assumptions C09_shuffle_irrelevant.
 
 (* Ddnnf::sample_t_wise (ZippingMerger + SimilarityMerger, trim_and_resample,
    complete_partial_configs; cached SAT states as in the Rust): for every WFQ circuit over n >= 1
-   features with a model and without a node that lists a child twice, every t (t >= 1 is not
+   features with a model, every t (t >= 1 is not
    needed: for t = 0 the sample is merely non-empty), EVERY iteration
    order of the hash sets of cross interactions (ord_int), every order of equally long samples after
    sort_unstable (ord_sort), every shuffle of the literals to resample (ord_shuf) and EVERY choice of
    the configurations that are trimmed (trim_pick: the f64 ranks are abstracted by this oracle), the
    sampler does not panic and returns ResultWithSample S with twise_ok C n t S = true. *)
 Theorem C09_sample_t_wise_covers : forall (C : circuit) (n t : nat),
-  WFQ C n -> nodup_children C = true ->
+  WFQ C n ->
   forall (ord_int : nat -> nat -> nat -> list cfg -> list cfg)
          (ord_sort : nat -> list sample -> list sample)
          (trim_pick : list (list Z) -> list bool)
@@ -233,7 +233,7 @@ Print Assumptions C09_sample_t_wise_covers.
 (* the same in semantic terms (C09_twise_ok_sound_complete): only complete configurations that are
    models, every valid interaction of min(t,n) literals inside some configuration *)
 Theorem C09_sample_t_wise_sound_complete : forall (C : circuit) (n t : nat),
-  WFQ C n -> nodup_children C = true ->
+  WFQ C n ->
   forall ord_int ord_sort trim_pick ord_shuf,
   (forall a b c l, Permutation (ord_int a b c l) l) ->
   (forall a l, Permutation (ord_sort a l) l) ->
@@ -243,27 +243,37 @@ Theorem C09_sample_t_wise_sound_complete : forall (C : circuit) (n t : nat),
             (forall c, In c (sres_configs r) -> In c (Models C n)) /\
             (forall I, valid_interaction C n t I -> exists c, In c (sres_configs r) /\ incl I c).
 Proof.
-  intros C n t HQ Hd oi os tp sh H1 H2 H3 Hn Hrc.
-  destruct (sample_t_wise_covers C n t HQ Hd oi os tp sh H1 H2 H3 Hn Hrc) as [S [HS Hok]].
+  intros C n t HQ oi os tp sh H1 H2 H3 Hn Hrc.
+  destruct (sample_t_wise_covers C n t HQ oi os tp sh H1 H2 H3 Hn Hrc) as [S [HS Hok]].
   exists (WithSample S). split; [exact HS|]. now apply twise_ok_sound_complete.
 Qed.
 Print Assumptions C09_sample_t_wise_sound_complete.
 
-(* Without the hypothesis on repeated children the statement is FALSE: x1 /\ x2 /\ true /\ true with
-   the true node listed twice is a WFQ circuit on which the sampler panics for every oracle
-   (remove_unneeded: `expect("Sample does not exist!")` on the second occurrence).  Confirmed on the
-   code with the c2d file  nnf 4 4 2 / A 0 / L 1 / L 2 / A 4 0 0 1 2  (finding K36). *)
+(* Finding K36 and its repair F13.  BEFORE the repair remove_unneeded removed a child's partial sample
+   once per occurrence in the child list (sample_t_wise_v0 = the pipeline with remove_unneeded_v0):
+   x1 /\ x2 /\ true /\ true with the true node listed twice is a WFQ circuit on which that sampler
+   panics for every oracle (`expect("Sample does not exist!")` on the second occurrence).  Confirmed on
+   the code before the repair with the c2d file  nnf 4 4 2 / A 0 / L 1 / L 2 / A 4 0 0 1 2.
+   With children.iter().unique() (the model's remove_unneeded) the theorems above need no hypothesis
+   on the child lists; the same circuit now yields the one model. *)
 Definition ex_dup : circuit := [TrueN; Lit 1; Lit 2; And [2; 1; 0; 0]%nat].
 Theorem C09_sample_t_wise_repeated_child_refuted :
   exists C n, WFQ C n /\ (1 <= n)%nat /\ 0 < root_count C /\ nodup_children C = false /\
     forall t ord_int ord_sort trim_pick ord_shuf,
-      sample_t_wise (build C n) t ord_int ord_sort trim_pick ord_shuf = None.
+      sample_t_wise_v0 (build C n) t ord_int ord_sort trim_pick ord_shuf = None.
 Proof.
   exists ex_dup, 2%nat. split; [apply check_wf_WFQ; vm_compute; reflexivity|].
   split; [lia|]. split; [vm_compute; reflexivity|]. split; [vm_compute; reflexivity|].
   intros t oi os tp sh. vm_compute. reflexivity.
 Qed.
 Print Assumptions C09_sample_t_wise_repeated_child_refuted.
+
+Example C09_sample_t_wise_repeated_child_repaired :
+  WFQ ex_dup 2 /\ nodup_children ex_dup = false /\
+  option_map sres_configs
+    (sample_t_wise (build ex_dup 2) 2 (fun _ _ _ l => l) (fun _ l => l) (fun _ => []) (fun l => l))
+  = Some [[1; 2]].
+Proof. split; [apply check_wf_WFQ; vm_compute; reflexivity|]. split; vm_compute; reflexivity. Qed.
 
 (* non-vacuity: x1 <-> x2 satisfies the hypotheses; with the identity oracles and nothing trimmed
    the model returns the two models, with reversing oracles and everything trimmed as well *)
@@ -285,11 +295,11 @@ Qed.
 
 (* ExtendedDdnnf::sample_t_wise (Model/TwiseFitness.v: AttributeZippingMerger, AttributeSimilarityMerger,
    cover_with_caching_sorted, trim_and_resample, complete_partial_configs_optimal = calc_best_config of
-   C20; objective values in Z): for every WFQ circuit without a repeated child, n >= 1 features,
+   C20; objective values in Z): for every WFQ circuit, n >= 1 features,
    root_count > 0, EVERY vector of objective values, every t <= n, every trim choice and every
    shuffle, the sampler returns ResultWithSample S with twise_ok C n t S = true.  [full for t <= n] *)
 Theorem C09_sample_t_wise_fitness_covers : forall (C : circuit) (n t : nat) (vals : list Z),
-  WFQ C n -> nodup_children C = true ->
+  WFQ C n ->
   forall (trim_pick : list (list Z) -> list bool) (ord_shuf : list Z -> list Z),
   (forall l, Permutation (ord_shuf l) l) ->
   (1 <= n)%nat -> 0 < root_count C -> (t <= n)%nat ->
@@ -307,7 +317,7 @@ Print Assumptions C09_sample_t_wise_fitness_covers.
 Definition ex_free2 : circuit := [Lit 1; Lit (-1); Or [0; 1]%nat; Lit 2; Lit (-2); Or [3; 4]%nat; And [2; 5]%nat].
 Theorem C09_sample_t_wise_fitness_refuted_t_exceeds_n :
   exists C n t vals (trim_pick : list (list Z) -> list bool) (ord_shuf : list Z -> list Z),
-    WFQ C n /\ nodup_children C = true /\ (1 <= n)%nat /\ 0 < root_count C /\ (n < t)%nat /\
+    WFQ C n /\ (1 <= n)%nat /\ 0 < root_count C /\ (n < t)%nat /\
     (forall l, Permutation (ord_shuf l) l) /\
     exists S, sample_t_wise_fit (build C n) t vals trim_pick ord_shuf = Some (WithSample S) /\
               map c_lits (s_iter S) = [[1; 2]; [-1; -2]] /\
@@ -315,7 +325,7 @@ Theorem C09_sample_t_wise_fitness_refuted_t_exceeds_n :
               twise_first_uncovered C n t (map c_lits (s_iter S)) = Some [1; -2].
 Proof.
   exists ex_free2, 2%nat, 3%nat, [1; 1], (fun _ => []), (fun l => l).
-  split; [apply check_wf_WFQ; vm_compute; reflexivity|]. split; [vm_compute; reflexivity|].
+  split; [apply check_wf_WFQ; vm_compute; reflexivity|].
   split; [lia|]. split; [vm_compute; reflexivity|]. split; [lia|]. split; [intros l; apply Permutation_refl|].
   eexists. split; [vm_compute; reflexivity|]. repeat split; vm_compute; reflexivity.
 Qed.
